@@ -2,7 +2,9 @@ package props
 
 import (
 	"fmt"
+	"mc/report"
 	"os"
+	"path/filepath"
 	"reflect"
 	"regexp"
 	"strings"
@@ -15,8 +17,8 @@ import (
 	"mc/refper"
 )
 
-const frozenSchemaPath = "/verif/mc/spec/ngap_schema.json"
-const liveNgapTypeDir = "/repo/src/free5gclib/ngap/ngapType"
+var frozenSchemaPath = filepath.Join(report.VerifDir, "mc/spec/ngap_schema.json")
+var liveNgapTypeDir = filepath.Join(report.RepoDir, "src/free5gclib/ngap/ngapType")
 
 var (
 	schemaOnce sync.Once
